@@ -27,6 +27,7 @@ class Outcome:
     extra_nontrivial: int = 0
     extra_queries: int = 0
     extra_solver_s: float = 0.0
+    traces_validated: int = 0
 
 
 def J(name, tier="quick", **kw):
@@ -765,6 +766,7 @@ def confirm_failure(prop, crate_dir, job, idx, out: Outcome):
     for t in tests[:3]:
         rep, ran, txt = runner.native_playback(prop, job, t)
         rep_rel, ran_rel, _ = runner.native_playback(prop, job, t, profile_release=True) if rep else (False, False, "")
+        out.traces_validated += 1
         if rep:
             path = save_replay(prop, job, t)
             runner.log(f"  counterexample for {job.name} reproduced natively (dev{' + release' if rep_rel else ''}): {t['description']}")
